@@ -115,6 +115,17 @@ CLAIMS["C09"] = dict(
          "Address = base + offset is the C02 accounting invariant.",
 )
 
+CLAIMS["C16"] = dict(
+    text="Proof: '.repeat' over an arbitrary count (loop contract) compiles the same body in repeat context at the running address and concatenates the copies; "
+         "re-compiling the SAME operand tree gives the same mode/register field and extension word for all 19 operand skeletons incl. hoisted index forms, and the same "
+         "branch field (label fix-up idempotent) - relational 'twice' obligations on the real stubs; a complete AST inventory shows that the only stores on syntax-tree "
+         "tokens outside constructors are allow-listed diagnostics flags / idempotent caches; files are compiled in order at continued addresses with fresh per-file "
+         "prefixes; a CompilerStopIteration (.end) returns exactly the bytes accumulated before it; .once stops iff the file was compiled before; insert_file yields "
+         "exactly the file's bytes. Run-time check: repeat vs unrolled, files vs concatenation, insert_file vs .byte, .end, .once on the real assembler.",
+    note="Trusted: pyvc, z3, the syntactic token-store inventory. Known finding D3 (value cache of impure operators: '.repeat 3 { .word ./2 }') is proved absent outside its "
+         "region: pure operators and first evaluations.",
+)
+
 CLAIMS["C18"] = dict(
     text="The history quantifier is reduced to a one-state invariant and proved: a complete AST inventory (regenerated every run) shows that the only module- or "
          "class-level state written in any function body is try_compute.depth, Awaiting.awaiting_stack, handle_reports.handlers_stack, Deferred.next_instance_id and "
